@@ -2,7 +2,9 @@
    Proved: the theorems of LSP.Emit about the ABSTRACT emission pipeline (all id assignments, all set iteration orders, all
    directory listings, all prior directory states), instantiated at strings; and, by computation on the site table translated
    from the current plugins (Gen.EmitData), that every source of run-to-run variation found by lib/x_emit.py belongs to a
-   class covered by one of those theorems, and that every plugin cleans its owned pattern before writing or writes fixed names.
+   class covered by one of those theorems — in particular that no module-level state of generator/ can be changed by a function
+   (no_module_state), so that the n-th generation of a process is the first generation of a fresh one — and that every plugin
+   cleans its owned pattern before writing or writes fixed names.
    NOT proved: that each Python expression is an instance of its class (syntactic classification + differential runs). *)
 From Coq Require Import List String Bool Permutation.
 Import ListNotations.
@@ -11,6 +13,9 @@ From Gen Require Import EmitData.
 Open Scope string_scope.
 
 (* ---- instance obligations (recomputed on every run) *)
+(* no module-level name / class attribute / default value / functools cache of generator/ that a function can change *)
+Lemma no_module_state : state_ok sites = true.
+Proof. vm_compute. reflexivity. Qed.
 Lemma sites_covered : sites_ok sites = true.
 Proof. vm_compute. reflexivity. Qed.
 Lemma plugins_owned : plugins_ok plugins = true.
@@ -77,3 +82,34 @@ Proof.
   unfold plugin_ok in H. apply andb_true_iff in H. destruct H as [_ H]. exact (W H).
 Qed.
 Print Assumptions C16_foreign_files_untouched.
+
+(* ---- process histories: the n-th generation inside one Python process *)
+(* module state constant after import (every SModConst site; no SModState site exists by no_module_state) *)
+Theorem C16_process_history_independent : forall (St M : Type) (step : St -> M -> St * list (string * content)),
+  (forall s m, fst (step s m) = s) ->
+  forall s0 (earlier : list M) m, snd (step (after St M _ step s0 earlier) m) = snd (step s0 m).
+Proof. intros St M step C s0 earlier m. apply const_state_history_independent. exact C. Qed.
+Print Assumptions C16_process_history_independent.
+
+(* state the output does not look at (loggers, library caches) may change *)
+Theorem C16_view_history_independent : forall (St M W : Type) (step : St -> M -> St * list (string * content)) (view : St -> W),
+  (forall s m, view (fst (step s m)) = view s) ->
+  (forall s s' m, view s = view s' -> snd (step s m) = snd (step s' m)) ->
+  forall s0 (earlier : list M) m, snd (step (after St M _ step s0 earlier) m) = snd (step s0 m).
+Proof. intros St M W step view C V s0 earlier m. apply (view_state_history_independent St M _ step W view); assumption. Qed.
+Print Assumptions C16_view_history_independent.
+
+(* functools caches over pure functions of strings (every SMemoPure site) *)
+Theorem C16_memo_history_independent : forall (V : Type) (f : string -> V) (left_by_earlier_runs : table string V) (ks : list string),
+  consistent string V String.eqb f left_by_earlier_runs ->
+  snd (calls string V String.eqb f left_by_earlier_runs ks) = snd (calls string V String.eqb f [] ks).
+Proof.
+  intros V f c ks H. apply memo_same_as_fresh; [|exact H].
+  intros a b E. apply String.eqb_eq. exact E.
+Qed.
+Print Assumptions C16_memo_history_independent.
+
+(* the instance: the translated site table contains no state a generation can change *)
+Theorem C16_no_history_sites : history_sites sites = [].
+Proof. apply state_ok_no_history_sites. exact no_module_state. Qed.
+Print Assumptions C16_no_history_sites.
